@@ -390,6 +390,18 @@ impl M2Model {
         }
 
         let count = self.header.views.count as usize;
+
+        // Every profile has a 44 byte ModelView in the views array
+        let views_end = self.header.views.offset as u64 + count as u64 * 44;
+        if views_end > original_m2_data.len() as u64 {
+            return Err(M2Error::ParseError(format!(
+                "Views array of {} skin profiles at offset {:#x} exceeds file size {}",
+                count,
+                self.header.views.offset,
+                original_m2_data.len()
+            )));
+        }
+
         let mut skins = Vec::with_capacity(count);
 
         for i in 0..count {
